@@ -38,6 +38,7 @@ CLASS_OF = z3.Function("class_of", Val, Val)
 SUBCLASS = z3.Function("is_subclass", Val, Val, B_)
 DKEYS = z3.Function("dict_keys", I_, z3.SeqSort(Val))
 DGET = z3.Function("dict_get", I_, Val, Val)
+DHAS_ = z3.Function("dict_has", I_, Val, B_)
 VT_HASVAL = z3.Function("valid_types_has_value", Val, Val, B_)
 VT_HASKEY = z3.Function("valid_types_has_key", Val, Val, B_)
 VT_GET = z3.Function("valid_types_get", Val, Val, Val)
@@ -378,17 +379,35 @@ class DynMixin(object):
                 items = Val.items(t)
                 yield s, SeqV(z3.Length(items), lambda k, items=items: dyn(items[k]), tag="dynlist", meta={"as_seq": items})
             elif kind == "D":
-                keys = DKEYS(Val.did(t))
-                yield s, SeqV(z3.Length(keys), lambda k, keys=keys: dyn(keys[k]), tag="dynkeys")
+                yield s, self.dict_keys_seq(s, Val.did(t))
             elif kind == "S":
                 raise Unsupported("iteration over a string")
             else:
                 yield self.raise_(s, "TypeError", "object is not iterable")
 
+    def dict_keys_seq(self, st, did):
+        keys = DKEYS(did)
+        st.assume_all_k(lambda k, keys=keys: z3.Implies(z3.And(k >= 0, k < z3.Length(keys)), z3.And(hashable(keys[k]), DHAS_(did, keys[k]))))
+        return SeqV(z3.Length(keys), lambda k, keys=keys: dyn(keys[k]), tag="dynkeys", meta={"keys_of": did})
+
+    def bi_dyn_dict_keys(self, st, args, kw):
+        yield st, st.alloc(PyList(seq=self.dict_keys_seq(st, Val.did(args[0].t))))
+
+    def bi_dyn_dict_get(self, st, args, kw):
+        t = args[0].t
+        k = self.to_dyn(st, args[1])
+        default = self.to_dyn(st, args[2]) if len(args) > 2 else Val.N
+        for s, h in self.branch(st, hashable(k)):
+            if h:
+                yield s, dyn(z3.If(DHAS_(Val.did(t), k), DGET(Val.did(t), k), default))
+            else:
+                yield self.raise_(s, "TypeError", "unhashable type")
+
     def bi_dyn_dict_items(self, st, args, kw):
         t = args[0].t
         did = Val.did(t)
         keys = DKEYS(did)
+        st.assume_all_k(lambda k, keys=keys: z3.Implies(z3.And(k >= 0, k < z3.Length(keys)), z3.And(hashable(keys[k]), DHAS_(did, keys[k]))))
         seq = SeqV(z3.Length(keys), lambda k: TupleV([dyn(keys[k]), dyn(DGET(did, keys[k]))]), tag="dynitems")
         yield st, st.alloc(PyList(seq=seq))
 
